@@ -576,7 +576,20 @@ func step(w []string, line string) string {
 			wc.Hold()
 			done := make(chan struct{})
 			go func() { defer close(done); b.Clients[w[1]].CloseSocket() }()
-			time.Sleep(60 * time.Millisecond)
+			// until the queue is saturated behind the stuck dispatcher (or the connection is already gone)
+		waitFull:
+			for i := 0; i < 10000; i++ {
+				select {
+				case <-done:
+					break waitFull
+				default:
+				}
+				if b.Svc.VerifPresenceQueued() >= 99 {
+					time.Sleep(20 * time.Millisecond)
+					break
+				}
+				time.Sleep(500 * time.Microsecond)
+			}
 			wc.Release()
 			<-done
 			return collect(true, false, w[1])
